@@ -838,6 +838,14 @@ def execute(plan, keep_events=False):
         except Violation as v:
             violation = {'oracle': v.oracle, 'api': v.api, 'op_index': i, 'detail': v.detail, 'op': plan['ops'][i]}
             sim.log.add('violation', v.oracle, v.api, i)
+        except Exception as e:
+            # safety net: an exception raised *inside numqi code* that escaped the per-call wrappers is the SUT's, not the harness's
+            import traceback
+            tb = traceback.extract_tb(e.__traceback__)
+            if not tb or '/numqi/' not in tb[-1].filename:
+                raise
+            violation = {'oracle': 'unexpected_exception', 'api': tb[-1].name, 'op_index': i, 'detail': f'{type(e).__name__}: {e} (raised in {tb[-1].filename.split("/numqi/")[-1]}:{tb[-1].lineno})', 'op': plan['ops'][i]}
+            sim.log.add('violation', 'unexpected_exception', tb[-1].name, i)
     sim.bump('ops', len(plan['ops']))
     res = {
         'digest': sim.log.hexdigest(),
